@@ -30,6 +30,23 @@ TEXT = {
 NOTE = ("Trusted: Lean 4.33.0 kernel; axioms ⊆ {propext, Classical.choice, Quot.sound} (audited per theorem on every run with #print axioms; no sorry/native_decide/bv_decide/axiom); "
         "the hand-written Lean model of the Rust code, tied to /repo only by the differential correspondence run (jpserve vs jpdriver on generated, bounded-exhaustive and corpus lines); "
         "the Rust harness, its law oracles and /verif/check; std/serde_json/toml semantics as listed in DESIGN.md §6; usize = 64 bit. ")
+TIE = {
+ "C01": "validate_bytes, Token::{from_encoded,new,decoded}, the seven range `get` impls and 13 `Pointer` methods",
+ "C02": "validate_bytes", "C14": "validate_bytes", "C03": "Token::from_encoded, Token::new, Token::decoded",
+ "C04": "Pointer::{is_root,count,back,front}", "C12": "the seven `PointerIndex::get` impls, split_front, split_at, split_back, parent",
+ "C13": "Pointer::{starts_with,strip_prefix,ends_with,strip_suffix,intersection,is_root,split_at}",
+ "C16": "Index::{for_len,for_len_incl,for_len_unchecked}",
+ "C19": "the token, range-slicing, splitting and prefix/suffix functions listed for C03, C12, C13, C04",
+}
+def tie_text(pid):
+    if pid not in TIE: return ""
+    return (" Second tie (DESIGN §16): on every run tools/rs2lean.py regenerates Lean definitions of " + TIE[pid] +
+            " from the current Rust source, and the theorems Jp.Tie.* (kernel-checked in the same run) prove them equal to the model for all inputs, "
+            "so the property theorems also hold of the extracted definitions (Jp.Tie.Transport*).")
+def tie_note(pid):
+    if pid not in TIE: return ""
+    return ("For the functions named in level_claimed the translator tools/rs2lean.py (Rust-subset parser, emission rules, std/crate API table) is additionally trusted; "
+            "when a function leaves the translatable subset or its tie theorem no longer checks, the run falls back to the hand model + correspondence alone, says so in evidence.coverage.source_tie, and raises its budget. ")
 checks = []
 for pid in sorted(PROPS):
     p = PROPS[pid]
@@ -40,9 +57,10 @@ for pid in sorted(PROPS):
         evidence_file=f"/verif/evidence/{pid}.json",
         replay_cmd_template=f"./check {pid} --replay {{path}}",
         engine="lean-proof+correspondence",
-        level_claimed=dict(category="proof", text=TEXT[pid], design_ref="DESIGN.md §8 " + pid),
-        level_note=NOTE + (("Partial: " + p["partial"]) if p.get("partial") else ""),
-        technique="Lean 4 machine-checked proof over a hand-written model + differential correspondence check (Rust harness vs compiled Lean driver)"
+        level_claimed=dict(category="proof", text=TEXT[pid] + tie_text(pid), design_ref="DESIGN.md §8 " + pid + (", §16" if pid in TIE else "")),
+        level_note=NOTE + tie_note(pid) + (("Partial: " + p["partial"]) if p.get("partial") else ""),
+        technique=("Lean 4 machine-checked proof over a hand-written model + differential correspondence check (Rust harness vs compiled Lean driver)" +
+                   ("; scanner-core definitions regenerated from the Rust source by a translator and proved equal to the model on every run" if pid in TIE else ""))
                   if pid != "C20" else "Lean 4 `decide +kernel` over a table regenerated by a translator + exhaustive cargo check sweep",
     ))
 man = dict(
